@@ -217,7 +217,7 @@ func (runInfo *runInfoStruct) runVarStmt(stmt *ast.VarStmt) {
 		if (value.Kind() == reflect.Slice || value.Kind() == reflect.Array) && value.Len() > 0 {
 			// value is slice/array, add each value to left side names
 			for i := 0; i < value.Len() && i < len(stmt.Names); i++ {
-				runInfo.env.DefineValue(stmt.Names[i], value.Index(i))
+				runInfo.env.DefineValue(stmt.Names[i], heldOperand(value.Index(i)))
 			}
 			// return last value of slice/array
 			runInfo.rv = value.Index(value.Len() - 1)
@@ -227,7 +227,7 @@ func (runInfo *runInfoStruct) runVarStmt(stmt *ast.VarStmt) {
 
 	// define all names with right side values
 	for i = 0; i < len(rvs) && i < len(stmt.Names); i++ {
-		runInfo.env.DefineValue(stmt.Names[i], rvs[i])
+		runInfo.env.DefineValue(stmt.Names[i], heldOperand(rvs[i]))
 	}
 
 	// return last right side value
@@ -512,7 +512,7 @@ func (runInfo *runInfoStruct) runForSliceStmt(stmt *ast.ForStmt, value reflect.V
 		default:
 		}
 
-		iv := value.Index(i)
+		iv := heldOperand(value.Index(i))
 		if iv.Kind() == reflect.Interface && !iv.IsNil() {
 			iv = iv.Elem()
 		}
